@@ -325,6 +325,7 @@ Outcome runForked(const std::vector<uint32_t> &ch) {
     }
     Choices c(ch);
     Ctx ctx;
+    ctx.earlyFd = pfd[1];
     Verdict v = S.prop->fn(c, ctx);
     if (c.exhausted()) ctx.label("choices:truncated");
     serialize(pfd[1], v, ctx);
@@ -371,6 +372,8 @@ Outcome runForked(const std::vector<uint32_t> &ch) {
   waitpid(pid, &status, 0);
   bool complete = deserialize(buf, o.v, o.ctx);
   if (!complete || !(WIFEXITED(status) && WEXITSTATUS(status) == 0)) {
+    o.ctx.labels.clear();
+    o.ctx.nontrivial = false;
     std::string err = slurp(S.stderrPath);
     std::string key = classifyDeath(err, status);
     std::string tail = err.size() > 3000 ? err.substr(err.size() - 3000) : err;
